@@ -664,6 +664,12 @@ class io_epoll_context::read_sender {
       if (static_cast<completion_base&>(self).enqueued_.load() == 0) {
         // Avoid instantiating set_done() if we're not going to call it.
         if constexpr (is_stop_ever_possible) {
+          // The stop callback is still alive unless the readiness handler
+          // ran (and destroyed it) before noticing the cancellation; destroying
+          // it waits for a request_stop() that is still inside the callback.
+          if ((self.state_.load(std::memory_order_relaxed) & io_mask) == 0) {
+            self.stopCallback_.destruct();
+          }
           unifex::set_done(std::move(self.receiver_));
         } else {
           // This should never be called if stop is not possible.
@@ -901,6 +907,12 @@ class io_epoll_context::write_sender {
       if (static_cast<completion_base&>(self).enqueued_.load() == 0) {
         // Avoid instantiating set_done() if we're not going to call it.
         if constexpr (is_stop_ever_possible) {
+          // The stop callback is still alive unless the readiness handler
+          // ran (and destroyed it) before noticing the cancellation; destroying
+          // it waits for a request_stop() that is still inside the callback.
+          if ((self.state_.load(std::memory_order_relaxed) & io_mask) == 0) {
+            self.stopCallback_.destruct();
+          }
           unifex::set_done(std::move(self.receiver_));
         } else {
           // This should never be called if stop is not possible.
